@@ -678,8 +678,8 @@ class Environment:
 
     @classmethod
     def from_file(cls, memento_env_path: str) -> "Environment":
-        base_dir = os.path.basename(memento_env_path)
-        return Environment(_load_config(base_dir, memento_env_path))
+        base_dir = os.path.dirname(os.path.abspath(memento_env_path))
+        return Environment(_load_config(base_dir, os.path.basename(memento_env_path)))
 
 
 def _load_environment() -> Environment:
